@@ -599,7 +599,11 @@ func (g *schemaGenerator) determineTypeName(t *schemas.Type) (string, bool) {
 			tidx = k
 		}
 
-		return t.Type[tidx], isPtr
+		// Two types of which neither is "null" cannot be represented by one
+		// of them: fall through to the multiple-types case below.
+		if isPtr {
+			return t.Type[tidx], isPtr
+		}
 	}
 
 	g.warner("Property has multiple types; will be represented as interface{} with no validation")
